@@ -406,11 +406,35 @@ def is_throwing_helper(cf):
 def is_own_lookup(fn, n, cf):
     """a const member function of the same class called on *this that may throw (pointIdx, parameterIdx):
     its outcome is part of the caller's decision"""
-    if cf is None or cf.implicit or cf.body is None or not cf.rec.get('const') or cf.cls != fn.cls or n['k'] != 'CXXMemberCallExpr':
+    if cf is None or cf.implicit or cf.body is None or cf.cls != fn.cls or n['k'] != 'CXXMemberCallExpr' or cf.usr == fn.usr:
         return False
-    if not any(x['k'] == 'CXXThrowExpr' for x in cf.nodes):
-        return False
+    if not any(x['k'] == 'CXXThrowExpr' for x in cf.nodes) and not any(x['k'] == 'CXXMemberCallExpr' and x['callee']['name'] == 'at' for x in cf.nodes):
+        try:
+            import maythrow as MT
+            if not MT.get(fn.prog).summary.get(cf.usr):
+                return False
+        except Exception:
+            return False
+    if not cf.rec.get('const'):
+        # a non-const twin (point_nonConst): only when it has no effect on the object
+        try:
+            import effects as FX
+            if [e for e in FX.get(fn.prog).events_of(cf) if e[1] == 'this' and e[3] != 'io']:
+                return False
+        except Exception:
+            return False
     o = fn.nodes[fn.strip(n.get('obj', -1), 'all')] if n.get('obj') is not None else None
+    for _ in range(6):
+        if o is None:
+            break
+        if o['k'] == 'UnaryOperator' and o['op'] == '*' and o['ch']:
+            o = fn.nodes[fn.strip(o['ch'][0], 'all')]
+        elif o['k'] == 'DeclRefExpr' and o['decl'].get('dk') == 'local' and o['decl'].get('isref'):
+            from paths import local_init
+            ini = local_init(fn, o['decl']['id'])
+            o = fn.nodes[fn.strip(ini, 'all')] if ini is not None else None
+        else:
+            break
     return o is not None and o['k'] == 'CXXThisExpr'
 
 
@@ -422,7 +446,8 @@ def translate_model(fn, ev, n, cf, model):
     roots = []
     obj = fn.call_obj(n)
     if obj is not None:
-        roots.append((R.render(obj), 'this'))
+        ro = re.sub(r'^\*\((.*)\)$', r'\1', R.render(obj))
+        roots.append((ro, 'this'))
     for i, a in enumerate(fn.call_args(n)):
         r = R.render(a)
         r = re.sub(r'^\*\((.*)\)$', r'\1', r)
